@@ -6,6 +6,12 @@ import json, os, subprocess, sys
 VERIF = os.path.dirname(os.path.dirname(os.path.abspath(__file__)))
 
 CLAIMED = {
+    "C14": dict(
+        text="Coq theorems: a Bloom filter created from a key set answers may-match for every key of the set (any hash function, any probe count, any bits-per-key) and the filter block consulted with a data block start offset answers may-match for every key of that block (any block layout); byte-exact model tied to filter_policy.rs / filter_block*.rs by differential execution.",
+        note="Trusted: Coq kernel, extraction, glue; theorem hypothesis keys*bits_per_key < 2^32 (the as-u32 truncation).",
+        design="6 / C14",
+        technique="machine-checked proof in Coq (bit-vector monotonicity, builder invariant) + checked model-code correspondence",
+    ),
     "C12": dict(
         text="Coq theorems about a byte-exact model of the log writer/reader (round trip over all "
              "record lengths and writer re-openings, truncation at every byte, interruption between "
